@@ -79,9 +79,37 @@ def _sym_tensor_factory(orig):
     return f
 
 
-def sym_paths(fn, assumptions=(), tally=None, max_paths=100000, timeout_ms=60000):
-    """run fn() under the symbolic mode on every feasible path; returns [(ctx, result)]"""
+def _snapshot(objs):
+    """shallow snapshot of the attribute dictionaries of the given objects (and of all nn.Module children), so
+    that symbolic tensors cached in module state during a symbolic run never leak into later runs"""
+    snap = []
+    seen = set()
+    for o in objs:
+        mods = list(o.modules()) if isinstance(o, torch.nn.Module) else [o]
+        for m in mods:
+            if id(m) in seen or not hasattr(m, "__dict__"):
+                continue
+            seen.add(id(m))
+            d = dict(m.__dict__)
+            sub = {k: dict(v) for k, v in d.items() if k in ("_buffers", "_parameters") and isinstance(v, dict)}
+            snap.append((m, d, sub))
+    return snap
+
+
+def _restore(snap):
+    for m, d, sub in snap:
+        m.__dict__.clear()
+        m.__dict__.update(d)
+        for k, v in sub.items():
+            m.__dict__[k].clear()
+            m.__dict__[k].update(v)
+
+
+def sym_paths(fn, assumptions=(), tally=None, max_paths=100000, timeout_ms=60000, state=()):
+    """run fn() under the symbolic mode on every feasible path; returns [(ctx, result)].
+    `state`: objects whose attributes are restored after every path (module caches / carry-over state)."""
     def wrapped(ctx):
+        snap = _snapshot(state)
         torch.tensor = _sym_tensor_factory(_ORIG_TENSOR)
         torch.as_tensor = _sym_tensor_factory(_ORIG_AS_TENSOR)
         try:
@@ -90,6 +118,7 @@ def sym_paths(fn, assumptions=(), tally=None, max_paths=100000, timeout_ms=60000
         finally:
             torch.tensor = _ORIG_TENSOR
             torch.as_tensor = _ORIG_AS_TENSOR
+            _restore(snap)
     return explore(wrapped, assumptions, tally, max_paths, timeout_ms)
 
 
@@ -170,8 +199,10 @@ def concolic(ctx, inputs, real_fn, sym_outs, tally=None, tol=1e-5, extra=()):
         # diversify: random phase through a seeded parity side constraint on the bit inputs when possible
         rnd = random.Random(SEED + len(ctx.pc))
         r = ctx.check()
+        if r == z3.unsat:
+            return False, "path condition (with the recorded assumptions) is unsatisfiable: vacuous path"
         if r != z3.sat:
-            return True, "path condition not sat/unknown: nothing to validate"
+            return True, "path condition unknown: nothing to validate"
         model = ctx.solver.model()
     finally:
         ctx.solver.pop()
